@@ -123,7 +123,7 @@ def tlc(module, cfg, workers=1, env=None, timeout=600, xmx="4g", extra=(), metat
     return r
 
 
-def run_shards(binary, args, prefix, n, timeout=3000):
+def run_shards(binary, args, prefix, n, timeout=3000, synth=None):
     """Run a driver as n shard processes (`--shard i/n`), each writing <prefix>.<i>.ndjson.
     A shard that dies inside code under test (it left a pending-step note) contributes its
     trace up to that point plus a synthetic event with outcome "abort"; a shard that dies
@@ -153,6 +153,15 @@ def run_shards(binary, args, prefix, n, timeout=3000):
         if note is None:
             raise ToolError(f"{binary} shard {i} died outside the code under test (rc={p.returncode})\n{p.stdout[-3000:]}")
         evs = read_ndjson(f)
+        how = f"process died (rc={p.returncode}): " + (p.stdout.strip().splitlines() or ["?"])[0][:200]
+        if synth is not None:
+            ev = synth(note, evs, how)
+            with open(f, "a") as fh:
+                fh.write(json.dumps(ev) + "\n")
+            files.append(f)
+            aborts.append({"shard": i, "event": {k: (x if len(str(x)) < 300 else str(x)[:300]) for k, x in ev.items()}, "how": how})
+            sums.append({"runs": len(evs), "lines": len(evs) + 1})
+            continue
         last_st = next((e["st"] for e in reversed(evs) if "st" in e), {"data": [], "hint": []})
         phase = note.pop("phase", "op")
         note.pop("run", None) if note.get("ev") != "reset" else None
